@@ -3,11 +3,16 @@
 (* machine up to MaxOps, emitted one JSON line per complete history.        *)
 EXTENDS Soa, TLC, Json
 
-CONSTANTS MaxOps, MaxLen, Emit
+CONSTANTS MaxOps, MaxLen, Emit,
+          Kinds          \* the range forms (subset of RangeKinds) enumerated for drain / get(range) / get_mut(range)
 
 VARIABLE hist          \* sequence of operations performed (this IS what is enumerated)
 
-Op(k, a, b, c, d) == <<k, a, b, c, d>>
+Op(k, a, b, c, d) == <<k, a, b, c, d, 0>>
+OpK(k, a, b, c, d, rk) == <<k, a, b, c, d, rk>>
+(* argument values that matter for a range kind: an absent bound is fixed to 0 *)
+As(rk, n) == IF rk \in {2, 3, 5} THEN {0} ELSE 0..n
+Bs(rk, n) == IF rk \in {4, 5} THEN {0} ELSE 0..n
 
 MCInit == Init /\ hist = <<>>
 
@@ -21,15 +26,15 @@ MCNext ==
      \/ \E n \in 0..2 : Collect(n) /\ hist' = Append(hist, Op("collect", n, 0, 0, 0))
      \/ \E n \in {0, 3} : WithCapacity(n) /\ hist' = Append(hist, Op("with_capacity", n, 0, 0, 0))
      \/ Clear /\ hist' = Append(hist, Op("clear", 0, 0, 0, 0))
-     \/ \E a \in 0..(Len(vec) + 1), b \in 0..(Len(vec) + 1) :
-          \E nf \in 0..Min2(2, IF b > a THEN b - a + 1 ELSE 1), nb \in 0..1 :
-            Drain(a, b, nf, nb) /\ hist' = Append(hist, Op("drain", a, b, nf, nb))
+     \/ \E rk \in Kinds : \E a \in As(rk, Len(vec) + 1), b \in Bs(rk, Len(vec) + 1) :
+          \E nf \in 0..Min2(2, IF REnd(rk, b) > RStart(rk, a) THEN REnd(rk, b) - RStart(rk, a) + 1 ELSE 1), nb \in 0..1 :
+            DrainK(rk, a, b, nf, nb) /\ hist' = Append(hist, OpK("drain", a, b, nf, nb, rk))
      \/ \E i \in 0..Len(vec) : Get(i) /\ hist' = Append(hist, Op("get", i, 0, 0, 0))
-     \/ \E a \in 0..(Len(vec) + 1), b \in 0..(Len(vec) + 1) :
-          GetRange(a, b) /\ hist' = Append(hist, Op("get_range", a, b, 0, 0))
+     \/ \E rk \in Kinds : \E a \in As(rk, Len(vec) + 1), b \in Bs(rk, Len(vec) + 1) :
+          GetRangeK(rk, a, b) /\ hist' = Append(hist, OpK("get_range", a, b, 0, 0, rk))
      \/ \E i \in 0..Len(vec) : GetMutWrite(i) /\ hist' = Append(hist, Op("get_mut_write", i, 0, 0, 0))
-     \/ \E a \in 0..Len(vec), b \in 0..(Len(vec) + 1) :
-          GetMutRangeWrite(a, b) /\ hist' = Append(hist, Op("get_mut_range_write", a, b, 0, 0))
+     \/ \E rk \in Kinds : \E a \in As(rk, Len(vec)), b \in Bs(rk, Len(vec) + 1) :
+          GetMutRangeWriteK(rk, a, b) /\ hist' = Append(hist, OpK("get_mut_range_write", a, b, 0, 0, rk))
      \/ Iter /\ hist' = Append(hist, Op("iter", 0, 0, 0, 0))
      \/ IterRev /\ hist' = Append(hist, Op("iter_rev", 0, 0, 0, 0))
      \/ \E nf \in 1..2 : IterMixed(nf) /\ hist' = Append(hist, Op("iter_mixed", nf, 0, 0, 0))
